@@ -923,6 +923,13 @@ func init() {
 					case *ssa.Function:
 						g = v
 					}
+					if g != nil && len(fields) != 2 {
+						// table-driven registration: `for _, spec := range table { m[spec.key] = generatorFor(spec) }` - one
+						// obligation per table entry, the closure evaluated with that entry's constants
+						if done := tableDrivenGenerators(c, fn, mu, g, need, gen, nop, &n); done {
+							return
+						}
+					}
 					n++
 					key := fmt.Sprintf("core/flow.init / generator#%d", n)
 					if g == nil || len(fields) != 2 {
@@ -1006,4 +1013,234 @@ func init() {
 			}
 		},
 	})
+}
+
+// fieldPathOf: addr is &root.f.g... ; it returns the root and "f.g".
+func fieldPathOf(addr ssa.Value) (ssa.Value, string) {
+	var parts []string
+	for {
+		fa, ok := addr.(*ssa.FieldAddr)
+		if !ok {
+			break
+		}
+		parts = append([]string{fieldName(fa.X.Type(), fa.Field)}, parts...)
+		addr = fa.X
+	}
+	return addr, strings.Join(parts, ".")
+}
+
+// tableDrivenGenerators handles a generator registration whose key and closure depend on the element of a package-level
+// table the registration loop ranges over. It reports whether it recognised the shape (and has emitted the obligations).
+func tableDrivenGenerators(c *Ctx, initFn *ssa.Function, mu *ssa.MapUpdate, g *ssa.Function, need, gen *ssa.Function, nop *ssa.Global, n *int) bool {
+	// the loop variable: key = load of &spec.key... with spec a local that is assigned table[i]
+	kld, ok := mu.Key.(*ssa.UnOp)
+	if !ok {
+		return false
+	}
+	specV, keyPath := fieldPathOf(kld.X)
+	spec, ok := specV.(*ssa.Alloc)
+	if !ok || keyPath == "" {
+		return false
+	}
+	var table ssa.Value
+	for _, r := range refsOf(spec) {
+		if st, ok := r.(*ssa.Store); ok && st.Addr == ssa.Value(spec) {
+			switch x := stripConv(st.Val).(type) {
+			case *ssa.UnOp:
+				if ia, ok := x.X.(*ssa.IndexAddr); ok {
+					table = ia.X
+				}
+			case *ssa.Index:
+				table = x.X
+			}
+		}
+	}
+	if table == nil {
+		return false
+	}
+	// the global behind it: the array itself, or a slice variable
+	var glob *ssa.Global
+	switch x := table.(type) {
+	case *ssa.Global:
+		glob = x
+	case *ssa.UnOp:
+		glob, _ = x.X.(*ssa.Global)
+	}
+	if glob == nil || glob.Pkg == nil {
+		return false
+	}
+	pini := glob.Pkg.Func("init")
+	if pini == nil {
+		return false
+	}
+	// roots whose elements are the table's elements: the global array, or the backing array of the slice stored in it
+	roots := map[ssa.Value]bool{glob: true}
+	eachInstr(pini, func(ins ssa.Instruction) {
+		if st, ok := ins.(*ssa.Store); ok && st.Addr == ssa.Value(glob) {
+			if sl, ok := st.Val.(*ssa.Slice); ok {
+				roots[sl.X] = true
+			}
+		}
+	})
+	elems := map[int64]map[string]int64{}
+	unknown := false
+	eachInstr(pini, func(ins ssa.Instruction) {
+		st, ok := ins.(*ssa.Store)
+		if !ok {
+			return
+		}
+		root, path := fieldPathOf(st.Addr)
+		ia, ok := root.(*ssa.IndexAddr)
+		if !ok || !roots[ia.X] {
+			return
+		}
+		j, ok := constInt(ia.Index)
+		if !ok {
+			unknown = true
+			return
+		}
+		if elems[j] == nil {
+			elems[j] = map[string]int64{}
+		}
+		if path == "" {
+			// whole element stored from a literal built elsewhere: not read
+			unknown = true
+			return
+		}
+		switch v := stripConv(st.Val).(type) {
+		case *ssa.Const:
+			if v.Value == nil {
+				elems[j][path] = 0
+			} else if v.Value.Kind() == constant.Bool {
+				if constant.BoolVal(v.Value) {
+					elems[j][path] = 1
+				} else {
+					elems[j][path] = 0
+				}
+			} else if k, ok := constInt(v); ok {
+				elems[j][path] = k
+			}
+		}
+	})
+	if unknown || len(elems) == 0 {
+		return false
+	}
+	// the closure's captured copy of the element
+	var specFree *ssa.FreeVar
+	for _, h := range withAnon(g) {
+		for _, fv := range h.FreeVars {
+			if pt, ok := fv.Type().(*types.Pointer); ok && types.Identical(pt.Elem(), spec.Type().(*types.Pointer).Elem()) {
+				specFree = fv
+			}
+		}
+	}
+	var idxs []int64
+	for j := range elems {
+		idxs = append(idxs, j)
+	}
+	sort.Slice(idxs, func(a, b int) bool { return idxs[a] < idxs[b] })
+	for _, j := range idxs {
+		el := elems[j]
+		*n++
+		key := fmt.Sprintf("core/flow.init / generator#%d", *n)
+		rf := map[string]int64{}
+		for pth, v := range el {
+			if strings.HasPrefix(pth, keyPath+".") {
+				last := pth[len(keyPath)+1:]
+				rf[strings.ToUpper(last[:1])+last[1:]] = v
+			}
+		}
+		// key fields left at zero are not stored by the initialiser
+		if kt, ok := mu.Key.Type().Underlying().(*types.Struct); ok {
+			for k := 0; k < kt.NumFields(); k++ {
+				nm := kt.Field(k).Name()
+				nm = strings.ToUpper(nm[:1]) + nm[1:]
+				if _, have := rf[nm]; !have {
+					rf[nm] = 0
+				}
+			}
+		}
+		want, ok := evalBoolOnFields(need, rf)
+		if !ok {
+			c.Undecided(key, need.Pos(), "needStatistic is not a simple predicate over the key fields any more")
+			continue
+		}
+		// what the closure does for this entry: fold the branches on the entry's constant fields
+		constOf := func(v ssa.Value) (int64, bool) {
+			if k, ok := constInt(v); ok {
+				return k, true
+			}
+			if cv, ok := v.(*ssa.Const); ok && cv.Value != nil && cv.Value.Kind() == constant.Bool {
+				if constant.BoolVal(cv.Value) {
+					return 1, true
+				}
+				return 0, true
+			}
+			ld, ok := stripConv(v).(*ssa.UnOp)
+			if !ok || ld.Op != token.MUL || specFree == nil {
+				return 0, false
+			}
+			root, pth := fieldPathOf(ld.X)
+			if root != ssa.Value(specFree) || pth == "" {
+				return 0, false
+			}
+			if val, have := el[pth]; have {
+				return val, true
+			}
+			return 0, true // field not named in the table literal: zero
+		}
+		usesNop, usesReal := false, false
+		for _, h := range withAnon(g) {
+			if len(h.Blocks) == 0 {
+				continue
+			}
+			reach := map[*ssa.BasicBlock]bool{h.Blocks[0]: true}
+			work := []*ssa.BasicBlock{h.Blocks[0]}
+			for len(work) > 0 {
+				b := work[len(work)-1]
+				work = work[:len(work)-1]
+				succs := b.Succs
+				if ifi, ok := b.Instrs[len(b.Instrs)-1].(*ssa.If); ok {
+					cond, pos := stripNot(ifi.Cond, true)
+					known, val := false, false
+					if k, ok := constOf(cond); ok {
+						known, val = true, k != 0
+					} else if bo, ok := cond.(*ssa.BinOp); ok && (bo.Op == token.EQL || bo.Op == token.NEQ) {
+						x, okx := constOf(bo.X)
+						y, oky := constOf(bo.Y)
+						if okx && oky {
+							known, val = true, (x == y) == (bo.Op == token.EQL)
+						}
+					}
+					if known {
+						if val == pos {
+							succs = b.Succs[:1]
+						} else {
+							succs = b.Succs[1:2]
+						}
+					}
+				}
+				for _, s := range succs {
+					if !reach[s] {
+						reach[s] = true
+						work = append(work, s)
+					}
+				}
+			}
+			for b := range reach {
+				for _, x := range b.Instrs {
+					if ld, ok := x.(*ssa.UnOp); ok && ld.X == ssa.Value(nop) {
+						usesNop = true
+					}
+					if ci, ok := x.(ssa.CallInstruction); ok && isStaticCallTo(ci, gen) {
+						usesReal = true
+					}
+				}
+			}
+		}
+		sn := constName(fieldTypeOf(c.P, "core/flow.Rule", "TokenCalculateStrategy"), rf["TokenCalculateStrategy"])
+		bn := constName(fieldTypeOf(c.P, "core/flow.Rule", "ControlBehavior"), rf["ControlBehavior"])
+		c.Check(want == usesReal && want != usesNop, key, mu.Pos(), "%s+%s (entry %d of the generator table): needStatistic=%v, generator binds a real statistic=%v, the no-op statistic=%v", sn, bn, j, want, usesReal, usesNop)
+	}
+	return true
 }
